@@ -18,6 +18,8 @@ func main() {
 		os.Exit(cmdRecipes(os.Args[2:]))
 	case "replay":
 		os.Exit(cmdReplay(os.Args[2:]))
+	case "genparams":
+		os.Exit(cmdGenParams(os.Args[2:]))
 	case "gengetters":
 		os.Exit(cmdGenGetters(os.Args[2:]))
 	case "list":
